@@ -177,6 +177,16 @@ HasX(cs) == \E i \in 1..Len(cs.regs) : cs.regs[i].kind = "isa" /\ cs.regs[i].acc
 \* (s0: input state, ref: C result, ist: IL result under M_exec, ist1: IL result of the first layout)
 ILSame(a, b) == a.stuck = b.stuck /\ Visible(a) = Visible(b) /\ a.loc = b.loc
 
+\* first listed deviation set under which the C source explains the observed result (0: none).  A recursion, not a set
+\* constructor: TLC caches lazily bound LET definitions only outside constructor / quantifier bodies, and the C run under a
+\* deviation must be evaluated once, not once per use.
+RECURSIVE FirstExpl(_, _, _, _, _)
+FirstExpl(cs, s0, kk, ist, d) ==
+    IF d > Len(DevSets) THEN 0
+    ELSE LET dref == RunSrc(cs, s0, kk, {DevSets[d][j] : j \in 1..Len(DevSets[d])})
+         IN  IF ~dref.unspec /\ ~dref.diverged /\ Agree(cs, dref, ist) /\ RetAgree(cs, dref, ist) THEN d
+             ELSE FirstExpl(cs, s0, kk, ist, d + 1)
+
 CheckOne(cs, o, s0, ref, ist, ist1, kk) ==
     LET same == ILSame(ist, ist1) IN
     IF ref.unspec THEN [r |-> "unspec", why |-> ref.why, same |-> same]
@@ -187,10 +197,8 @@ CheckOne(cs, o, s0, ref, ist, ist1, kk) ==
     LET istb == RunObs(cs, o, s0, kk, "build")
     IN  IF HasX(cs) /\ Agree(cs, ref, istb) /\ RetAgree(cs, ref, istb) THEN [r |-> "agree", model |-> "build", same |-> same]
         ELSE
-        LET expl == {d \in 1..Len(DevSets) :
-                        LET dref == RunSrc(cs, s0, kk, {DevSets[d][j] : j \in 1..Len(DevSets[d])})
-                        IN  ~dref.unspec /\ ~dref.diverged /\ Agree(cs, dref, ist) /\ RetAgree(cs, dref, ist)}
-        IN  IF expl # {} THEN [r |-> "deviation", dev |-> DevSets[CHOOSE d \in expl : \A d2 \in expl : d <= d2], same |-> same]
+        LET d1 == FirstExpl(cs, s0, kk, ist, 1)
+        IN  IF d1 # 0 THEN [r |-> "deviation", dev |-> DevSets[d1], same |-> same]
             ELSE [r |-> "mismatch", diff |-> Diff(cs, ref, ist), ret |-> RetAgree(cs, ref, ist),
                   shapes |-> ShapesOf(cs.src.body) \cup ShapesOfCase(cs.src.body, CSubs), same |-> same]
 
